@@ -317,17 +317,154 @@ def f32Roundtrip (p : Model.Num.Parts) : Option UInt32 :=
         | .huge => none
         | .rat n d => if d == 0 then none else Spec.Ieee.roundNE32 p.neg n d
 
-/-- the visitor of the numeric target on the `ParserNumber` the machine returned (`ParserNumber::visit`:
-    `U64 → visit_u64`, `I64 → visit_i64`, `F64 → visit_f64`) — serde's primitive visitors, the same
-    functions as on the `Value` side (there `Number::deserialize_any` makes the same three calls) -/
-def visitNumber (ty : NumTy) (v : JV) : R :=
-  match v with
-  | .num n =>
-    (match ty with
-     | .int w => numberInt {} w n
-     | .f64 => numberF64 {} n
-     | .f32 => numberF32 {} n)
-  | _ => fail
+/-- the visitor of the numeric target on a `ParserNumber` (`ParserNumber::visit`: `U64 → visit_u64`,
+    `I64 → visit_i64`, `F64 → visit_f64`) — serde's primitive visitors, the same functions as on the `Value`
+    side (there `Number::deserialize_any` makes the same three calls) -/
+def visitNumber (ty : NumTy) (n : Num) : R :=
+  match ty with
+  | .int w => numberInt {} w n
+  | .f64 => numberF64 {} n
+  | .f32 => numberF32 {} n
+
+/-! ### `parse_integer` (the number parser of the typed entry points, in every build)
+
+The literal is scanned into its parts with the error sites of `parse_integer`, `parse_number`,
+`parse_decimal`, `parse_exponent` (and their `parse_long_…` twins under `float_roundtrip`, which read the
+same syntax); the value is then `Model.Num.convertDefault` / `convertRoundtrip` of the parts — the
+conversion functions the machine uses. Every `peek_or_null()` that finds no byte is an end of input
+(the literal is complete) or, with a failing reader, `Error::io`. -/
+
+/-- leading digits and the rest -/
+def digitsOf : Bytes → Bytes × Bytes
+  | [] => ([], [])
+  | c :: r => if Machine.isDigit c then ((c :: (digitsOf r).1), (digitsOf r).2) else ([], c :: r)
+
+/-- index (in the exponent's digit string) of the digit on which `overflow!(exp * 10 + digit, i32::MAX)` fires -/
+def expOverflowIdx : Nat → Nat → Bytes → Option Nat
+  | _, _, [] => none
+  | exp, k, c :: cs =>
+    if Model.Num.overflowMacro exp (Model.Num.dig c) Model.Num.i32Max then some k
+    else expOverflowIdx (exp * 10 + Model.Num.dig c) (k + 1) cs
+
+def mkParts (neg : Bool) (int : Bytes) (frac : Option Bytes) (exp : Option (Bool × Bytes)) : Model.Num.Parts :=
+  { neg := neg, int := int, frac := frac, exp := exp, raw := [] }
+
+/-- ```rust
+fn parse_exponent(&mut self, positive: bool, significand: u64, starting_exp: i32) -> Result<f64> {
+    self.eat_char();
+    let positive_exp = match tri!(self.peek_or_null()) { b'+' => { self.eat_char(); true } b'-' => { self.eat_char(); false } _ => true };
+    let next = match tri!(self.next_char()) { Some(b) => b, None => return Err(self.error(ErrorCode::EofWhileParsingValue)) };
+    let mut exp = match next { c @ b'0'..=b'9' => (c - b'0') as i32, _ => return Err(self.error(ErrorCode::InvalidNumber)) };
+    while let c @ b'0'..=b'9' = tri!(self.peek_or_null()) {
+        self.eat_char();
+        let digit = (c - b'0') as i32;
+        if overflow!(exp * 10 + digit, i32::MAX) {
+            let zero_significand = significand == 0;
+            return self.parse_exponent_overflow(positive, zero_significand, positive_exp);   // Err(self.error(NumberOutOfRange)) if !zero_significand && positive_exp, else swallows the digits: ±0
+        }
+        exp = exp * 10 + digit;
+    }
+    … f64_from_parts(positive, significand, final_exp) }
+```
+`rest` follows the `e`/`E`. -/
+def scanExp (env : Env) (neg : Bool) (int : Bytes) (frac : Option Bytes) (rest : Bytes) (pos : Nat) : Res Model.Num.Parts :=
+  match rest with
+  | [] => atEof env .EofWhileParsingValue pos
+  | c :: r =>
+    let sgn : Bool × Bytes × Nat :=
+      if c == 0x2b then (false, r, pos + 1) else if c == 0x2d then (true, r, pos + 1) else (false, c :: r, pos)
+    match sgn.2.1 with
+    | [] => atEof env .EofWhileParsingValue sgn.2.2
+    | d :: r2 =>
+      if !Machine.isDigit d then .err .InvalidNumber (sgn.2.2 + 1)
+      else
+        let eds := (digitsOf r2).1
+        let r3 := (digitsOf r2).2
+        let allZero := (int ++ frac.getD []).all (· == 0x30)
+        match expOverflowIdx (Model.Num.dig d) 1 eds with
+        | some k =>
+          if !allZero && !sgn.1 then .err .NumberOutOfRange (sgn.2.2 + k + 1)
+          else if r3.isEmpty && env.flt then .io
+          else .ok (mkParts neg int frac (some (sgn.1, d :: eds))) r3 (sgn.2.2 + 1 + eds.length)
+        | none =>
+          if r3.isEmpty && env.flt then .io
+          else .ok (mkParts neg int frac (some (sgn.1, d :: eds))) r3 (sgn.2.2 + 1 + eds.length)
+
+/-- after the integer digits: ```rust
+fn parse_number(&mut self, positive: bool, significand: u64) -> Result<ParserNumber> {
+    Ok(match tri!(self.peek_or_null()) {
+        b'.' => ParserNumber::F64(tri!(self.parse_decimal(positive, significand, 0))),
+        b'e' | b'E' => ParserNumber::F64(tri!(self.parse_exponent(positive, significand, 0))),
+        _ => { if positive { ParserNumber::U64(significand) } else { let neg = (significand as i64).wrapping_neg(); if neg >= 0 { ParserNumber::F64(-(significand as f64)) } else { ParserNumber::I64(neg) } } }
+    }) }
+fn parse_decimal(&mut self, positive: bool, mut significand: u64, exponent_before_decimal_point: i32) -> Result<f64> {
+    self.eat_char();
+    let mut exponent_after_decimal_point = 0;
+    while let c @ b'0'..=b'9' = tri!(self.peek_or_null()) { … }
+    // Error if there is not at least one digit after the decimal point.
+    if exponent_after_decimal_point == 0 { match tri!(self.peek()) { Some(_) => return Err(self.peek_error(ErrorCode::InvalidNumber)), None => return Err(self.peek_error(ErrorCode::EofWhileParsingValue)) } }
+    match tri!(self.peek_or_null()) { b'e' | b'E' => self.parse_exponent(positive, significand, exponent), _ => self.f64_from_parts(positive, significand, exponent) } }
+``` -/
+def scanAfterInt (env : Env) (neg : Bool) (int : Bytes) (rest : Bytes) (pos : Nat) : Res Model.Num.Parts :=
+  match rest with
+  | [] => if env.flt then .io else .ok (mkParts neg int none none) [] pos
+  | c :: r =>
+    if c == 0x2e then
+      let fds := (digitsOf r).1
+      let r2 := (digitsOf r).2
+      let p2 := pos + 1 + fds.length
+      match r2 with
+      | [] =>
+        if fds.isEmpty then atEof env .EofWhileParsingValue p2
+        else if env.flt then .io else .ok (mkParts neg int (some fds) none) [] p2
+      | c2 :: r3 =>
+        if fds.isEmpty then .err .InvalidNumber (p2 + 1)
+        else if c2 == 0x65 || c2 == 0x45 then scanExp env neg int (some fds) r3 (p2 + 1)
+        else .ok (mkParts neg int (some fds) none) (c2 :: r3) p2
+    else if c == 0x65 || c == 0x45 then scanExp env neg int none r (pos + 1)
+    else .ok (mkParts neg int none none) (c :: r) pos
+
+/-- ```rust
+fn parse_integer(&mut self, positive: bool) -> Result<ParserNumber> {
+    let next = match tri!(self.next_char()) { Some(b) => b, None => return Err(self.error(ErrorCode::EofWhileParsingValue)) };
+    match next {
+        b'0' => { // There can be only one leading '0'.
+            match tri!(self.peek_or_null()) { b'0'..=b'9' => Err(self.peek_error(ErrorCode::InvalidNumber)), _ => self.parse_number(positive, 0) } }
+        c @ b'1'..=b'9' => { let mut significand = (c - b'0') as u64;
+            loop { match tri!(self.peek_or_null()) {
+                c @ b'0'..=b'9' => { … if overflow!(significand * 10 + digit, u64::MAX) { return Ok(ParserNumber::F64(tri!(self.parse_long_integer(positive, significand)))); } self.eat_char(); … }
+                _ => return self.parse_number(positive, significand), } } }
+        _ => Err(self.error(ErrorCode::InvalidNumber)),
+    } }
+```
+`rest` follows the sign. -/
+def scanInteger (env : Env) (neg : Bool) (rest : Bytes) (pos : Nat) : Res Model.Num.Parts :=
+  match rest with
+  | [] => atEof env .EofWhileParsingValue pos
+  | c :: r =>
+    if c == 0x30 then
+      match r with
+      | [] => scanAfterInt env neg [c] [] (pos + 1)
+      | d :: _ => if Machine.isDigit d then .err .InvalidNumber (pos + 2) else scanAfterInt env neg [c] r (pos + 1)
+    else if Machine.isDigit c then
+      scanAfterInt env neg (c :: (digitsOf r).1) (digitsOf r).2 (pos + 1 + (digitsOf r).1.length)
+    else .err .InvalidNumber (pos + 1)
+
+/-- `b'-' => { self.eat_char(); parse_integer(false) }`, `b'0'..=b'9' => parse_integer(true)` -/
+def scanNumber (env : Env) (rest : Bytes) (pos : Nat) : Res Model.Num.Parts :=
+  match rest with
+  | [] => atEof env .EofWhileParsingValue pos
+  | b :: r => if b == 0x2d then scanInteger env true r (pos + 1) else scanInteger env false (b :: r) pos
+
+/-- the `ParserNumber` of a scanned literal (`f64_from_parts` / `f64_long_from_parts`: an infinite result
+    is `Err(self.peek_error(ErrorCode::NumberOutOfRange))` at the end of the literal) -/
+def parserNumber (env : Env) (p : Model.Num.Parts) : Option Num :=
+  match (if env.cfg.fr then Model.Num.convertRoundtrip p else Model.Num.convertDefault p) with
+  | .u64 k => some (.pos k)
+  | .i64 k => some (.neg k)
+  | .f64 b => some (.float b)
+  | .outOfRange => none
+  | .outOfFuel => none          -- proved unreachable (C14)
 
 /-- ```rust
 pub(crate) fn deserialize_number<'any, V>(&mut self, visitor: V) -> Result<V::Value> {
@@ -346,23 +483,15 @@ def deNumber (env : Env) (ty : NumTy) (rest : Bytes) (pos : Nat) : TOut :=
   | ([], p) => atEof env .EofWhileParsingValue p
   | (b :: r, p) =>
     if isNumStart b then
-      let single := env.cfg.fr && ty == .f32
-      match machine (numEnv env) env.flt 0 init (b :: r) p with
-      | .ok v rest' pos' =>
-        if single then
-          let lit := (b :: r).take (pos' - p)
-          match f32Roundtrip (Spec.Canon.partsOf (Spec.Number.splitNumber lit)) with
+      (scanNumber env (b :: r) p).bind fun parts rest' pos' =>
+        if env.cfg.fr && ty == .f32 then
+          match f32Roundtrip parts with
           | some bits => .ok (.f32 bits) rest' pos'
           | none => .err .NumberOutOfRange (peekErrorIdx rest' pos')
-        else fixPos env true (ofVisit (visitNumber ty v) rest' pos')
-      | .err c i =>
-        -- a literal whose f64 value is infinite overflows in single precision as well; every other
-        -- error is raised before any conversion
-        .err c i
-      | .data i => .data i
-      | .raw r' p' => .raw r' p'
-      | .io => .io
-      | .fuel => .fuel
+        else
+          match parserNumber env parts with
+          | some n => fixPos env true (ofVisit (visitNumber ty n) rest' pos')
+          | none => .err .NumberOutOfRange (peekErrorIdx rest' pos')
     else peekInvalidType env (b :: r) p
 
 /-- ```rust
